@@ -14,7 +14,9 @@
 (*   disjunction         search_disjunction_slice.go, _heap.go (min)       *)
 (*   boolean             search_boolean.go (currMust/currShould/           *)
 (*                       currMustNot/currentID/done; Advance re-advances   *)
-(*                       the should searcher unconditionally)              *)
+(*                       the should searcher only if it trails the target  *)
+(*                       - unconditionally in the code as found, see the   *)
+(*                       repair switches)                                  *)
 (*   filter              search_filter.go + the filter closure of          *)
 (*                       search/query/boolean.go                           *)
 (*   construction        search/query/{conjunction,disjunction,boolean}.go *)
@@ -516,8 +518,9 @@ BoolAdv(s, id) ==
     ELSE LET s0 == BoolInit(s) IN
          IF s0.cur = Nil \/ s0.cur < id
          THEN LET s1 == IF HasMust(s0) THEN LET a == Adv(s0.must[1], id) IN [s0 EXCEPT !.must[1] = a.s, !.cm = a.r] ELSE s0
-                  \* the should searcher is advanced unconditionally, even when
-                  \* currShould is already at or after the target
+                  \* as found, the should searcher was advanced unconditionally, even
+                  \* when currShould was already at or after the target (the match it
+                  \* stood on was lost); repaired: only if it is nil or behind
                   s2 == IF HasShould(s1) /\ (~FixBoolAdvance \/ s1.cs = Nil \/ s1.cs < id)
                         THEN LET a == Adv(s1.should[1], id) IN [s1 EXCEPT !.should[1] = a.s, !.cs = a.r] ELSE s1
                   s3 == IF HasMustNot(s2) /\ (s2.cn = Nil \/ s2.cn < id)
